@@ -650,19 +650,27 @@ ASMJIT_FAVOR_SIZE static Error FormatterInternal_explain_const(
   static const char vshufpd[] = "A0\0" "A1\0" "B0\0" "B1\0" "A2\0" "A3\0" "B2\0" "B3\0" "A4\0" "A5\0" "B4\0" "B5\0" "A6\0" "A7\0" "B6\0" "B7\0";
   static const char vshufps[] = "A0\0" "A1\0" "A2\0" "A3\0" "A0\0" "A1\0" "A2\0" "A3\0" "B0\0" "B1\0" "B2\0" "B3\0" "B0\0" "B1\0" "B2\0" "B3\0";
 
+  // The immediate is a mask of categories (one bit per category), not an index.
   static const ImmBits vfpclassxx[] = {
-    { 0x07u, 0, ImmBits::kModeLookup, "QNAN\0" "+0\0" "-0\0" "+INF\0" "-INF\0" "DENORMAL\0" "-FINITE\0" "SNAN\0" }
+    { 0x01u, 0, ImmBits::kModeLookup, "\0" "QNAN\0"     },
+    { 0x02u, 1, ImmBits::kModeLookup, "\0" "+0\0"       },
+    { 0x04u, 2, ImmBits::kModeLookup, "\0" "-0\0"       },
+    { 0x08u, 3, ImmBits::kModeLookup, "\0" "+INF\0"     },
+    { 0x10u, 4, ImmBits::kModeLookup, "\0" "-INF\0"     },
+    { 0x20u, 5, ImmBits::kModeLookup, "\0" "DENORMAL\0" },
+    { 0x40u, 6, ImmBits::kModeLookup, "\0" "-FINITE\0"  },
+    { 0x80u, 7, ImmBits::kModeLookup, "\0" "SNAN\0"     }
   };
 
   static const ImmBits vfixupimmxx[] = {
-    { 0x01u, 0, ImmBits::kModeLookup, "\0" "+INF_IE\0" },
-    { 0x02u, 1, ImmBits::kModeLookup, "\0" "-VE_IE\0"  },
-    { 0x04u, 2, ImmBits::kModeLookup, "\0" "-INF_IE\0" },
-    { 0x08u, 3, ImmBits::kModeLookup, "\0" "SNAN_IE\0" },
-    { 0x10u, 4, ImmBits::kModeLookup, "\0" "ONE_IE\0"  },
-    { 0x20u, 5, ImmBits::kModeLookup, "\0" "ONE_ZE\0"  },
-    { 0x40u, 6, ImmBits::kModeLookup, "\0" "ZERO_IE\0" },
-    { 0x80u, 7, ImmBits::kModeLookup, "\0" "ZERO_ZE\0" }
+    { 0x01u, 0, ImmBits::kModeLookup, "\0" "ZERO_ZE\0" },
+    { 0x02u, 1, ImmBits::kModeLookup, "\0" "ZERO_IE\0" },
+    { 0x04u, 2, ImmBits::kModeLookup, "\0" "ONE_ZE\0"  },
+    { 0x08u, 3, ImmBits::kModeLookup, "\0" "ONE_IE\0"  },
+    { 0x10u, 4, ImmBits::kModeLookup, "\0" "SNAN_IE\0" },
+    { 0x20u, 5, ImmBits::kModeLookup, "\0" "-INF_IE\0" },
+    { 0x40u, 6, ImmBits::kModeLookup, "\0" "-VE_IE\0"  },
+    { 0x80u, 7, ImmBits::kModeLookup, "\0" "+INF_IE\0" }
   };
 
   static const ImmBits vgetmantxx[] = {
@@ -671,11 +679,12 @@ ASMJIT_FAVOR_SIZE static Error FormatterInternal_explain_const(
     { 0x08u, 3, ImmBits::kModeLookup, "\0" "QNAN_IF_SIGN\0" }
   };
 
+  // The low lane comes first: the 128-bit form only reads imm8[2:0] (and only the first two records are shown for it).
   static const ImmBits vmpsadbw[] = {
-    { 0x40u, 6, ImmBits::kModeLookup, "BLK1[4]\0" "BLK1[5]\0" },
-    { 0x30u, 4, ImmBits::kModeLookup, "BLK2[4]\0" "BLK2[5]\0" "BLK2[6]\0" "BLK2[7]\0" },
     { 0x04u, 2, ImmBits::kModeLookup, "BLK1[0]\0" "BLK1[1]\0" },
-    { 0x03u, 0, ImmBits::kModeLookup, "BLK2[0]\0" "BLK2[1]\0" "BLK2[2]\0" "BLK2[3]\0" }
+    { 0x03u, 0, ImmBits::kModeLookup, "BLK2[0]\0" "BLK2[1]\0" "BLK2[2]\0" "BLK2[3]\0" },
+    { 0x40u, 6, ImmBits::kModeLookup, "BLK1[4]\0" "BLK1[5]\0" },
+    { 0x30u, 4, ImmBits::kModeLookup, "BLK2[4]\0" "BLK2[5]\0" "BLK2[6]\0" "BLK2[7]\0" }
   };
 
   static const ImmBits vpclmulqdq[] = {
@@ -694,7 +703,8 @@ ASMJIT_FAVOR_SIZE static Error FormatterInternal_explain_const(
   };
 
   static const ImmBits vreducexx_vrndscalexx[] = {
-    { 0x07u, 0, ImmBits::kModeLookup, "\0" "\0" "\0" "\0" "ROUND\0" "FLOOR\0" "CEIL\0" "TRUNC\0" },
+    // imm8[2] set selects MXCSR.RC, imm8[1:0] is the rounding mode otherwise (the same layout as ROUNDPS).
+    { 0x07u, 0, ImmBits::kModeLookup, "ROUND\0" "FLOOR\0" "CEIL\0" "TRUNC\0" "CURRENT\0" "\0" "\0" "\0" },
     { 0x08u, 3, ImmBits::kModeLookup, "\0" "SAE\0" },
     { 0xF0u, 4, ImmBits::kModeFormat, "LEN=%d" }
   };
